@@ -221,16 +221,17 @@ inductive Misbehaves (cfg : Cfg) : Phase → Resp → Prop
   | firstBlockNumber {st cur r b} : step cfg (.b1 st cur) r = completeBlock2 cfg cur r →
       r.block2 = some b → b.num ≠ 0 → Misbehaves cfg (.b1 st cur) r
   /-- the response ending the upload carries a first Block2 block with the more flag whose
-  payload is not exactly one block -/
+  payload is not exactly one block (BERT: not a whole number of KiB, or no payload at all) -/
   | firstBlockSize {st cur r b} : step cfg (.b1 st cur) r = completeBlock2 cfg cur r →
-      r.block2 = some b → b.more = true → b.validFor r.payload.length = false →
+      r.block2 = some b → b.more = true → b.okFor r.payload.length = false →
       Misbehaves cfg (.b1 st cur) r
   /-- a block with a larger size exponent than the request it answers asked for (RFC 7959 2.4:
   the server may use a smaller block size, never a larger one) -/
   | szxGrows {t asm cur r b q} : r.block2 = some b → cur.block2 = some q → q.szx < b.szx →
       Misbehaves cfg (.b2 t asm cur) r
-  /-- payload length ≠ block size on a non-final block (or longer than a block on the last) -/
-  | badSize {t asm cur r b} : r.block2 = some b → b.validFor r.payload.length = false →
+  /-- payload length ≠ block size on a non-final block (BERT: not a whole number of KiB, or no
+  payload at all), or longer than a block on the last -/
+  | badSize {t asm cur r b} : r.block2 = some b → b.okFor r.payload.length = false →
       Misbehaves cfg (.b2 t asm cur) r
   /-- the block does not start where the bytes received so far end: gap, repetition, wrong number,
   number not rescaled after a size change -/
@@ -307,7 +308,7 @@ theorem step_misbehaves {cfg : Cfg} {ph : Phase} {r : Resp} (h : Misbehaves cfg 
     by_cases hc : r.code ≠ asm.code
     · exact ⟨.unexpectedBlock2, by rw [if_pos hc]⟩
     rw [if_neg hc]
-    by_cases hv : b.validFor r.payload.length = true
+    by_cases hv : b.okFor r.payload.length = true
     · exact ⟨.notImplemented, by simp [hv, hs]⟩
     · exact ⟨.unexpectedBlock2, by simp [hv]⟩
   | @etagChanged t asm cur r b hb he =>
@@ -318,7 +319,7 @@ theorem step_misbehaves {cfg : Cfg} {ph : Phase} {r : Resp} (h : Misbehaves cfg 
     by_cases hc : r.code ≠ asm.code
     · exact ⟨.unexpectedBlock2, by rw [if_pos hc]⟩
     rw [if_neg hc]
-    by_cases hv : b.validFor r.payload.length = true
+    by_cases hv : b.okFor r.payload.length = true
     · by_cases hs : b.start ≠ asm.payload.length
       · exact ⟨.notImplemented, by simp [hv, hs]⟩
       · exact ⟨.resourceChanged, by
@@ -508,7 +509,8 @@ of the Block2 loop (those that ask for a later block of the response: block numb
 ask for strictly increasing byte offsets: every block the client accepts advances the transfer.
 A server that answers "more to come" without payload is refused (`Misbehaves.badSize` /
 `firstBlockSize`) instead of being asked for the same block again and again — false before the fix
-for BERT blocks, where `is_valid_for_payload_size` accepted an empty non-final block. -/
+for BERT blocks, where `is_valid_for_payload_size` accepts an empty non-final block ("a whole
+number of KiB") and nothing else refused it; `BlockOpt.okFor` is the assembly's check with the fix. -/
 theorem C05_block2_offsets_increase (cfg : Cfg) (hcfg : cfg.Ok) (resps : List Resp) :
     List.Pairwise (· < ·) (loopStarts (runClient cfg resps).1) :=
   loop_starts_go (PhaseOk.start hcfg) resps
